@@ -1,3 +1,3 @@
 (* C16 — all lemmas (see the Proofs*.v files) and the counterexamples, re-exported. *)
 From FV.C16 Require Export Model ProofsBox ProofsRank ProofsOverlay ProofsFirst ProofsSubs ProofsPreflight
-  ProofsPipeline ProofsStage2 ProofsFont ProofsShape ProofsCollision ProofsCheck Refuted.
+  ProofsPipeline ProofsStage2 ProofsFont ProofsShape ProofsCollision ProofsConditions ProofsCheck Refuted.
